@@ -43,7 +43,8 @@ var schedThemes = map[string][]string{
 	"e":      {"walk-D-e", "walk-D-e-x", "walk-D-e-x", "unlink-e", "remove-8", "mkdir-e", "ren-e-E", "getattr-8", "clone-8", "setattr-8"},
 	"fnew":   {"remove-2", "unlink-f", "create-f", "create-f", "ren-g-f", "walk-f", "open-2", "ren-f-f2", "mkdir-f"},
 	"knew":   {"remove-4", "unlink-k", "create-k", "create-k", "walk-3-k", "ren-k-D", "open-4", "ren-sub-E"},
-	"create": {"create-D", "create-D", "create-sub", "create-sub", "ren-new-new2", "ren-new-E", "ren-subnew-D", "ren-sub-E", "ren-D-E", "unlink-new", "walk-new", "ren-sub-sub3"},
+	"create": {"hangup", "create-D", "create-D", "create-sub", "create-sub", "ren-new-new2", "ren-new-E", "ren-subnew-D", "ren-sub-E", "ren-D-E", "unlink-new", "walk-new", "ren-sub-sub3"},
+	"io":     {"read-10", "write-10", "fsync-10", "setattr-2", "unlink-f", "ren-g-f", "readdir-9", "create-D", "mkdir-D", "unlink-g", "getattr-2", "clunk-10", "remove-2", "hangup", "hangup"},
 	"dir":    {"create-D", "mkdir-D", "symlink-D", "unlink-g", "unlink-s", "readlink-7", "walk-f", "ren-g-f", "ren-f-f2", "link-D", "setattr-D", "getattr-D"},
 }
 
@@ -52,6 +53,7 @@ var schedAlphabet = []string{
 	"open-2", "open-4", "getattr-2", "getattr-4", "setattr-2", "setattr-3", "setattr-4", "readlink-7", "xattrwalk-2",
 	"unlink-f", "unlink-g", "unlink-k", "unlink-e", "unlink-s", "ren-f-f2", "ren-g-f", "ren-sub-E", "ren-f-E", "ren-k-D", "ren-sub-sub3",
 	"trename-2", "trename-4", "remove-2", "remove-8", "remove-4", "create-D", "create-sub", "mkdir-D", "mkdir-sub", "symlink-D", "link-D", "clunk-2", "clunk-3",
+	"readdir-9", "read-10", "write-10", "fsync-10", "clunk-10", "hangup",
 	"create-f", "create-k", "mkdir-f", "ren-new-new2", "ren-new-E", "ren-subnew-D", "unlink-new", "walk-new", "ren-D-E",
 	"unlink-f2", "walk-D-e-x", "mkdir-e", "ren-e-E", "getattr-8", "clone-8", "setattr-8", "setattr-D", "getattr-D",
 }
@@ -138,6 +140,16 @@ func schedMsg(kind string) *refcodec.Msg {
 		return tRemove(8)
 	case "remove-4":
 		return tRemove(4)
+	case "readdir-9":
+		return tReaddir(9, 0, 4096)
+	case "read-10":
+		return tRead(10, 0, 64)
+	case "write-10":
+		return tWrite(10, 3, "scheduled")
+	case "fsync-10":
+		return tFsync(10)
+	case "clunk-10":
+		return tClunk(10)
 	case "create-D":
 		return tCreate(1, "new", 2, 0o644)
 	case "create-f":
@@ -239,7 +251,8 @@ func runSchedCaseKeep(c schedCase, st *schedStats, keep func(sig string) bool) *
 			return failf("harness-version", "HARNESS-ERROR %v", err)
 		}
 		for j, m := range []*refcodec.Msg{tAttach(0, nofid, ""), tWalk(0, 1, "D"), tWalk(0, 2, "D", "f"), tWalk(0, 3, "D", "sub"), tWalk(0, 4, "D", "sub", "k"),
-			tWalk(0, 5, "E"), tWalk(0, 6, "D", "g"), tWalk(0, 7, "D", "s"), tWalk(0, 8, "D", "e")} {
+			tWalk(0, 5, "E"), tWalk(0, 6, "D", "g"), tWalk(0, 7, "D", "s"), tWalk(0, 8, "D", "e"),
+			tWalk(0, 9, "D"), tOpen(9, 0), tWalk(0, 10, "D", "f"), tOpen(10, 2)} {
 			if r, err := s.Call(withTag(m, uint16(1+j))); err != nil || r.Type == refcodec.Rlerror {
 				return failf("harness-setup", "HARNESS-ERROR %s: %v %v", m, r, err)
 			}
@@ -247,6 +260,8 @@ func runSchedCaseKeep(c schedCase, st *schedStats, keep func(sig string) bool) *
 	}
 	fs.SetStepper(stepCh)
 	sent := make([]bool, len(c.Reqs))
+	answered := make([]bool, len(c.Reqs))
+	nAnswered := 0
 	released := 0
 	sendDue := func(force bool) {
 		for i, k := range c.Reqs {
@@ -256,13 +271,19 @@ func runSchedCaseKeep(c schedCase, st *schedStats, keep func(sig string) bool) *
 			}
 			if !sent[i] && (force || d <= released) {
 				sent[i] = true
+				if k == "hangup" {
+					// the connection ends here: its Files are released by the server's
+					// teardown, whose backend calls are scheduled like any others
+					ss[i].C2S.CloseWrite()
+					answered[i] = true
+					nAnswered++
+					continue
+				}
 				ss[i].Send(refcodec.Encode(withTag(schedMsg(k), uint16(100+i))))
 			}
 		}
 	}
 	sendDue(false)
-	answered := make([]bool, len(c.Reqs))
-	nAnswered := 0
 	var trace []string
 	collect := func(quiet time.Duration) {
 		for {
@@ -382,7 +403,10 @@ func runSchedCaseKeep(c schedCase, st *schedStats, keep func(sig string) bool) *
 	}
 	if keep == nil || keep("live-fid-fenced:scheduled") {
 		for i, s := range ss {
-			for fid := uint64(1); fid <= 8; fid++ {
+			if c.Reqs[i] == "hangup" {
+				continue
+			}
+			for fid := uint64(1); fid <= 10; fid++ {
 				before := fs.Seq()
 				r, err := s.Call(withTag(tGetattr(fid), uint16(200+fid)))
 				// whatever the answer: the File behind the fid must know where its object is
@@ -529,6 +553,17 @@ func keepC08(sig string) bool {
 // backend reported (C09: a walk advances only through directories).
 func keepC09(sig string) bool { return strings.HasPrefix(sig, "fenced-path-reached:Walk") }
 
+// keepC05: the File lifecycle (closed exactly once, never used after or during
+// its Close, Handle returns), with connections ending in the middle of schedules.
+func keepC05(sig string) bool {
+	for _, p := range []string{"use-after-close", "double-close", "close-during-call", "closed-", "handle-did-not-return"} {
+		if strings.HasPrefix(sig, p) {
+			return true
+		}
+	}
+	return false
+}
+
 // keepC06: every request is answered, by a whole frame (C06).
 func keepC06(sig string) bool {
 	return strings.HasPrefix(sig, "request-never-answered") || strings.HasPrefix(sig, "reply-undecodable")
@@ -547,6 +582,7 @@ func schedReplay(keep func(string) bool) func(c schedCase) *fail {
 func init() {
 	replayRegistrars = append(replayRegistrars, func() {
 		registerReplay("C07/scheduled", schedReplay(nil))
+		registerReplay("C05/scheduled", schedReplay(keepC05))
 		registerReplay("C06/scheduled", schedReplay(keepC06))
 		registerReplay("C08/scheduled", schedReplay(keepC08))
 		registerReplay("C09/scheduled", schedReplay(keepC09))
